@@ -81,10 +81,14 @@ func (H) Generate(r *simrt.Rand, tier string) any {
 	for i := 0; i < n; i++ {
 		o := Op{V: r.Intn(s.U), Tree: r.Intn(3)}
 		x := r.Intn(100)
+		big := s.U >= 200
 		switch {
-		case x < 40 || (s.U >= 200 && x < 75):
+		case x < 40 || (big && x < 62):
 			o.K = "add"
-		case x < 65 || (removeHeavy && x < 80):
+		case x < 65 || (removeHeavy && x < 80) || (big && x < 84):
+			// (also in the big scenario: removals from a tree hundreds of nodes deep in
+			// its history are where a retrace that stops early, or a fixed-size path
+			// stack, shows)
 			o.K = "remove"
 		case x < 88:
 			o.K = "contains"
@@ -94,6 +98,16 @@ func (H) Generate(r *simrt.Rand, tier string) any {
 			o.K = "clear"
 		default:
 			o.K = "clone"
+		}
+		if big {
+			// one tree, never cleared, so that it does get big; a clone is taken late
+			// (of a big tree) and then lives alongside
+			if o.K == "clear" || (o.K == "clone" && i < n/2) {
+				o.K = "contains"
+			}
+			if r.Intn(8) != 0 {
+				o.Tree = 0
+			}
 		}
 		s.Ops = append(s.Ops, o)
 	}
